@@ -1,22 +1,128 @@
 import Girc.Spec.Sim
 import Girc.Proofs.InvHandlers
+import Girc.Proofs.SimBaseAux
 /-
   C04 proofs, part 1: the relation holds initially, it determines everything observable, and the
   account-tag step preserves it.
 -/
 namespace Girc.Proofs.SimBase
 open Girc Girc.Model Girc.Spec
+open Girc.Proofs.InvBase Girc.Proofs.InvHandlers
 
-theorem sim_init : Sim ({} : St) ({} : Ref) := by sorry
+theorem inv_init : Inv ({} : St) :=
+  { chanKeys := List.nodup_nil, userKeys := List.nodup_nil
+    chanKey := fun _ _ h => by cases h
+    userKey := fun _ _ h => by cases h
+    chanToUser := fun _ _ h => by cases h
+    userToChan := fun _ _ h => by cases h
+    chanSorted := fun _ _ h => by cases h
+    userSorted := fun _ _ h => by cases h
+    userHasChan := fun _ _ h => by cases h }
+
+theorem sim_init : Sim ({} : St) ({} : Ref) :=
+  { inv := inv_init
+    nick := rfl, ident := rfl, host := rfl, motd := rfl, maxLine := rfl, maxPrefix := rfl
+    opts := fun _ => rfl
+    chans := fun _ => rfl
+    chanModesWF := fun _ _ h => by cases h
+    users := fun _ => rfl
+    members := fun _ _ h => by cases h
+    membersKnown := fun _ _ h => by cases h
+    membersNodup := List.nodup_nil
+    perms := fun _ _ _ h => by cases h
+    permsKnown := fun _ h => by cases h
+    chanKeysNodup := List.nodup_nil
+    userKeysNodup := List.nodup_nil
+    chanKeysNonempty := fun _ h => by cases h }
+
+theorem observe_channels {st : St} {r : Ref} (h : Sim st r) :
+    (observe st).channels = r.observe.channels := by
+  unfold observe Ref.observe
+  simp only
+  rw [sortedKeys_congr h.chan_isSome]
+  apply filterMap_congr_mem
+  intro k _
+  rw [← h.chans k]
+  cases hg : AMap.get? st.channels k with
+  | none => rfl
+  | some ch =>
+    simp only [Option.map_some]
+    rw [h.chan_users hg, toBytes_eq_modesString]
+    rfl
+
+theorem observe_users {st : St} {r : Ref} (h : Sim st r) :
+    (observe st).users = r.observe.users := by
+  unfold observe Ref.observe
+  simp only
+  rw [sortedKeys_congr h.user_isSome]
+  apply filterMap_congr_mem
+  intro n _
+  rw [← h.users n]
+  cases hg : AMap.get? st.users n with
+  | none => rfl
+  | some u =>
+    simp only [Option.map_some]
+    rw [h.user_perms hg, h.user_chans hg]
+    rfl
+
+theorem observe_options {st : St} {r : Ref} (h : Sim st r) :
+    (observe st).options = r.observe.options := by
+  unfold observe Ref.observe
+  simp only
+  rw [sortedKeys_congr (m := st.serverOptions) (m' := r.options) (fun k => by rw [h.opts k])]
+  apply List.map_congr_left
+  intro k _
+  rw [h.opts k]
 
 /-- Related states show the same thing through the state API. -/
-theorem observe_eq {st : St} {r : Ref} (h : Sim st r) : observe st = r.observe := by sorry
+theorem observe_eq {st : St} {r : Ref} (h : Sim st r) : observe st = r.observe := by
+  have hc := observe_channels h
+  have hu := observe_users h
+  have ho := observe_options h
+  have e1 : (observe st).nick = r.observe.nick := h.nick
+  have e2 : (observe st).ident = r.observe.ident := h.ident
+  have e3 : (observe st).host = r.observe.host := h.host
+  have e4 : (observe st).motd = r.observe.motd := h.motd
+  have e5 : (observe st).maxEventLength = r.observe.maxEventLength := by
+    show st.maxLineLength - st.maxPrefixLength = r.maxLine - r.maxPrefix
+    rw [h.maxLine, h.maxPrefix]
+  generalize observe st = a at *
+  generalize r.observe = b at *
+  cases a; cases b
+  simp only at hc hu ho e1 e2 e3 e4 e5
+  subst hc hu ho e1 e2 e3 e4 e5
+  rfl
 
 /-- The account-tag step. -/
-theorem sim_tagStep {st : St} {r : Ref} (e : Event) (h : Sim st r) : Sim (handleTags st e) (r.tagStep e) := by sorry
+theorem sim_tagStep {st : St} {r : Ref} (e : Event) (h : Sim st r) : Sim (handleTags st e) (r.tagStep e) := by
+  unfold handleTags Ref.tagStep
+  cases e.tags with
+  | none => exact h
+  | some t =>
+    cases e.source with
+    | none => exact h
+    | some src =>
+      simp only
+      split
+      · exact h
+      · cases tagsGet (some t) sAccount with
+        | none => exact h
+        | some a =>
+          have := sim_updUser h (fold src.name) (fun u => { u with account := a })
+            (fun u => { u with account := a }) (fun _ => ⟨rfl, rfl, rfl⟩) (fun _ => rfl)
+          rw [fold_idem] at this
+          exact this
 
 /-- Conformance of a message only depends on who and what is known, which the tag step leaves alone. -/
 theorem conformant_tagStep (cfg : Cfg) (r : Ref) (e : Event) :
-    (r.tagStep e).conformant cfg e = r.conformant cfg e := by sorry
+    (r.tagStep e).conformant cfg e = r.conformant cfg e := by
+  unfold Ref.tagStep
+  split
+  · split
+    · rfl
+    · split
+      · exact conformant_updUser cfg r _ _ e
+      · rfl
+  · rfl
 
 end Girc.Proofs.SimBase
